@@ -55,7 +55,14 @@ type S2 struct {
 	Flag  bool              `json:"flag"`
 }
 
-var structTypes = map[string]reflect.Type{"S1": reflect.TypeOf(S1{}), "S2": reflect.TypeOf(S2{})}
+// S3: a json tag that equals another field's Go name, and vice versa (name lookup must win)
+type S3 struct {
+	Label string `json:"Name"`
+	Name  string
+	Code  int `json:"Label"`
+}
+
+var structTypes = map[string]reflect.Type{"S1": reflect.TypeOf(S1{}), "S2": reflect.TypeOf(S2{}), "S3": reflect.TypeOf(S3{})}
 
 func VNil() Val              { return Val{K: "nil"} }
 func VBool(b bool) Val       { return Val{K: "bool", B: b} }
